@@ -31,6 +31,13 @@ fn main() {
             let name = arg(&args, "--name").unwrap_or_default();
             db::scenario(&name, &mut sink)
         }
+        "db-matrix" => {
+            let focus = arg(&args, "--focus").unwrap_or_else(|| "general".into());
+            let nops: usize = arg(&args, "--nops").and_then(|s| s.parse().ok()).unwrap_or(12);
+            let variants: usize = arg(&args, "--variants").and_then(|s| s.parse().ok()).unwrap_or(6);
+            let scale: usize = arg(&args, "--scale").and_then(|s| s.parse().ok()).unwrap_or(1);
+            db::run_matrix(seed, cases, &mut sink, &focus, nops, variants, scale)
+        }
         "db" => {
             let focus = arg(&args, "--focus").unwrap_or_else(|| "general".into());
             let nops: usize = arg(&args, "--nops").and_then(|s| s.parse().ok()).unwrap_or(14);
